@@ -2,6 +2,7 @@ package analysis
 
 import (
 	"fmt"
+	"net/url"
 	"path"
 	"sort"
 	"strings"
@@ -20,6 +21,46 @@ type InlineSchemaNamer struct {
 	Operations     map[string]operations.OpRef
 	flattenContext *context
 	opts           *FlattenOpts
+	moved          []movedSchema // inline schemas moved to definitions by this namer, in order
+}
+
+// movedSchema keeps track of an inline schema which has been moved to a named definition
+type movedSchema struct {
+	from string // the key of the inline schema
+	to   string // the new definition
+}
+
+// rebasePointer follows a JSON pointer (either a key or a $ref) to some place inside a schema which has been moved.
+//
+// It returns false when the pointer does not point inside the moved schema.
+func (m movedSchema) rebasePointer(pointer string) (string, bool) {
+	inner, ok := strings.CutPrefix(unescapedPointer(pointer), unescapedPointer(m.from)+"/")
+	if !ok {
+		return pointer, false
+	}
+
+	return unescapedPointer(m.to) + "/" + inner, true
+}
+
+// rebasePointer follows a JSON pointer across all the moves carried out so far
+func (isn *InlineSchemaNamer) rebasePointer(pointer string) (string, bool) {
+	rebased := false
+	for _, m := range isn.moved {
+		var ok bool
+		pointer, ok = m.rebasePointer(pointer)
+		rebased = rebased || ok
+	}
+
+	return pointer, rebased
+}
+
+// unescapedPointer yields a common representation for keys and $ref's, the latter being possibly URL-escaped
+func unescapedPointer(pointer string) string {
+	if unescaped, err := url.PathUnescape(pointer); err == nil {
+		return unescaped
+	}
+
+	return pointer
 }
 
 // Name yields a new name for the inline schema
@@ -47,12 +88,31 @@ func (isn *InlineSchemaNamer) Name(key string, schema *spec.Schema, aschema *Ana
 			return ErrInlineDefinition(newName, err)
 		}
 
+		// NOTE: this extension is currently not used by go-swagger (provided for information only)
+		sch.AddExtension("x-go-gen-location", GenLocation(parts))
+
+		// save cloned schema to definitions
+		schutils.Save(isn.Spec, newName, sch)
+		move := movedSchema{from: key, to: createdRef.String()}
+		isn.moved = append(isn.moved, move)
+
 		// rewrite any dependent $ref pointing to this place,
 		// when not already pointing to a top-level definition.
 		//
 		// NOTE: this is important if such referers use arbitrary JSON pointers.
 		an := New(isn.Spec)
 		for k, v := range an.references.allRefs {
+			if rebased, ok := move.rebasePointer(v.String()); ok {
+				// a JSON pointer to some place inside the schema which has just moved: follow it to the new definition
+				debugLog("found a $ref inside a rewritten schema: %s points to %s", k, v.String())
+
+				if err := replace.UpdateRef(isn.Spec, k, spec.MustCreateRef(rebased)); err != nil {
+					return err
+				}
+
+				continue
+			}
+
 			r, erd := replace.DeepestRef(isn.opts.Swagger(), isn.opts.ExpandOpts(false), v)
 			if erd != nil {
 				return ErrAtKey(k, erd)
@@ -74,12 +134,6 @@ func (isn *InlineSchemaNamer) Name(key string, schema *spec.Schema, aschema *Ana
 				return err
 			}
 		}
-
-		// NOTE: this extension is currently not used by go-swagger (provided for information only)
-		sch.AddExtension("x-go-gen-location", GenLocation(parts))
-
-		// save cloned schema to definitions
-		schutils.Save(isn.Spec, newName, sch)
 
 		// keep track of created refs
 		if isn.flattenContext == nil {
